@@ -89,7 +89,7 @@ pub mod dist {
     }
 
     /// Writes the tables of `spec` under `root` (root/f/*.parquet, root/g/*.parquet). `skew` ≠ 0 writes a DIFFERENT
-    /// copy of f (one more row) — a node with stale data, for the digest-mismatch fault.
+    /// copy of f and of g (one more row each) — a node with stale data, for the digest-mismatch fault.
     pub fn write_tables(root: &Path, spec: &Value, skew: u64) {
         let mut r = Rng::new(spec["seed"].as_u64().unwrap_or(1));
         let kdom = spec["kdom"].as_u64().unwrap_or(3).max(1);
@@ -108,7 +108,7 @@ pub mod dist {
         write_parts(&root.join("f"), f_schema(), vec![Arc::new(Int64Array::from(id)), Arc::new(Int64Array::from(k)),
             Arc::new(Int64Array::from(v)), Arc::new(StringArray::from(s))],
             spec["f_files"].as_u64().unwrap_or(1) as usize, spec["f_rg"].as_u64().unwrap_or(1000) as usize);
-        let ng = spec["g_rows"].as_u64().unwrap_or(0);
+        let ng = spec["g_rows"].as_u64().unwrap_or(0) + skew;
         let mut gk = vec![]; let mut gw = vec![]; let mut gn = vec![];
         for i in 0..ng {
             gk.push(if r.below(100) < nulls { None } else { Some(r.below(kdom + 1) as i64) });
